@@ -180,8 +180,13 @@ def masters_only(ctx, rng, base, masters, skip, users, how, lib, i):
         ctx.nontriv(("ufos", i, ctx.scale))
     try:
         full = list(ufo2ft.compileInterpolatableTTFs([build_font(m, lib) for m in masters]))
-        ms = [dict(m, lib=dict(m.get("lib", {}), **({"public.skipExportGlyphs": list(skip)} if how == "ufo-libs" else {})))
-              for m in masters]
+        # UFO libs: the union of all masters' lists applies; the lists may differ from master to master
+        per_master = [list(skip) for _ in masters]
+        if how == "ufo-libs" and len(skip) >= 1 and i % 2 == 0:
+            per_master = [[skip[0]]] + [list(skip[1:]) for _ in masters[1:]]
+        ms = [dict(m, lib=dict(m.get("lib", {}), **({"public.skipExportGlyphs": per_master[k]} if how == "ufo-libs" else {})))
+              for k, m in enumerate(masters)]
+        case["per_master_lib_lists"] = per_master if how == "ufo-libs" else None
         kw = {"skipExportGlyphs": list(skip)} if how == "argument" else {}
         skipped = list(ufo2ft.compileInterpolatableTTFs([build_font(m, lib) for m in ms], **kw))
     except Exception as e:
